@@ -209,6 +209,55 @@ def producer_refuse_case(stream, armed):
     return len(log["completed"]), len(log["complex"]), len(log["execs"])
 
 
+def atomic_cases():
+    """a run one event short of completion; a peer's word about that run arrives while the engine thread is
+    finishing it (and the other way round)"""
+    ev = lambda i, d: (i, i, 0, d, 0, 0)        # noqa: E731
+    out = []
+    for shape, stream, last in ((["R", "R"], [1], 2), (["R", "R", "R"], [1, 2], 3), (["R", "RL", "R"], [1, 2, 2], 3)):
+        p = G.pattern(1, G.assign(shape, 0, "distinct"))
+        cfg = dict(phen=[(1, [p])], maxcache=50, idbase=1000)
+        prefix = [("local", ev(i, d)) for i, d in enumerate(stream)]
+        groups = [b["group"] for b in p["blocks"]]
+        evs = [ev(i, d) for i, d in enumerate(stream)] + [ev(90, last)]
+        hist_full = [(g, [e]) for g, e in zip([groups[min(i, len(groups) - 2)] for i in range(len(stream))] + [groups[-1]], evs)]
+        merged = []
+        for g, es in hist_full:          # loop events share a group
+            if merged and merged[-1][0] == g:
+                merged[-1][1].extend(es)
+            else:
+                merged.append((g, list(es)))
+        rec_full = dict(id=1000, ph=1, pat=1, idx=len(shape), hist=merged)
+        rec_first = dict(id=1000, ph=1, pat=1, idx=1, hist=[(groups[0], [evs[0]])])
+        local = ("local", ev(len(stream), last))
+        for note in (dict(comp=[rec_full], halt=[], upd=[]), dict(comp=[], halt=[rec_first], upd=[]),
+                     dict(comp=[], halt=[], upd=[rec_first]), dict(comp=[rec_full], halt=[], upd=[rec_first])):
+            out.append((cfg, prefix, ("remote", note), local))
+            out.append((cfg, prefix, local, ("remote", note)))
+    return out
+
+
+def atomic_half(res):
+    n = 0
+    for ci, (cfg, prefix, a, b) in enumerate(atomic_cases()):
+        for k in range(1, 400):
+            reached, got, serial, excs = SD.atomic_pair(cfg, prefix, a, b, k)
+            if not reached:
+                break
+            n += 1
+            if excs or got not in serial:
+                ncomp = sum(len(x[0]) for x in got[0])
+                res.failures.append(dict(
+                    signature="decider-operations-not-atomic",
+                    what="a %s operation started when a %s operation was at line %d of decider.py: the notifications and the "
+                         "final state are those of neither order of the two operations (%d completion(s) notified%s)"
+                         % (b[0], a[0], k, ncomp, "; raised %r" % excs if excs else ""),
+                    case=dict(atomic=ci, line=k), detail=dict(got=repr(got)[:600], serial=repr(serial)[:1200])))
+                break
+        res.note_case(("atomic", ci), True)
+    res.extra["two_caller_interleavings_of_decider_operations"] = n
+
+
 def tcp_case(sc):
     """real engines replicating through the real BoboDistributedTCP with link faults (a send that fails after the
     bytes were delivered, refused connections, backlog retries, merged backlog + new changes).  Per instance and run id,
@@ -326,6 +375,7 @@ def tcp_half(ctx, res):
 
 def run(ctx, res):
     engine_half(ctx, res)
+    atomic_half(res)
     tcp_half(ctx, res)
     cases = gen_cases(ctx)
     results = pmap(work, cases)
@@ -359,6 +409,15 @@ def replay(obj):
         print("scenario (real engines + real BoboDistributedTCP, link faults):", sc["steps"])
         print("oracle  :", fail or "every finished run was finished once, everywhere")
         return 1 if fail else 0
+    if "atomic" in case:
+        cfg, prefix, a, b = atomic_cases()[case["atomic"]]
+        reached, got, serial, excs = SD.atomic_pair(cfg, prefix, a, b, case["line"])
+        print("a %s operation started when a %s operation is at line %d of decider.py" % (b[0], a[0], case["line"]))
+        print("outcome          :", got)
+        print("serial a;b / b;a :", serial)
+        bad = bool(excs) or got not in serial
+        print("neither serial order" if bad else "equal to one of the serial orders")
+        return 1 if bad else 0
     if case.get("producer_refuse"):
         nrun, ncx, nex = producer_refuse_case(case["stream"], case["armed"])
         print("finished runs %d, complex events handed to the forwarder %d, action executions %d" % (nrun, ncx, nex))
